@@ -15,6 +15,7 @@
    elements (Iei, Len, Buffer: decode_list_ie / decode_result_ie) and as nested contents
    (ListContent_UnmarshalBinary: sublists > instructions > policy parts;
     ResultContent_UnmarshalBinary: subresults > results). *)
+From NV Require C19.Globals.
 From NV Require Import Lib.Base C18.Model C18.Spec C18.Proofs_base C18.Proofs_total C18.Proofs_rt C18.Proofs_plmn.
 Open Scope N_scope.
 
@@ -192,6 +193,14 @@ Example C18_example_errors :
   UePolDeliverySerEncode (mkSer 0 1 None None None) = Panic.
 Proof. repeat split; vm_compute; reflexivity. Qed.
 
+(* the functions this property is about are functions of their arguments: the files it is anchored in declare
+   no package-level variable other than the pinned read-only tables (or a never-touched one of plain type) and
+   none of their functions writes, slices, takes the address of, passes on or calls a method of a
+   package-level variable (logger entries excepted) -- evaluated on the current source (C19/Globals.v) *)
+Theorem C18_anchor_files_keep_no_state :
+  Globals.hidden_state_free Globals.anchors_C18 = true.
+Proof. vm_compute. reflexivity. Qed.
+
 Print Assumptions C18_total_delivery_message.
 Print Assumptions C18_total_list.
 Print Assumptions C18_total_result.
@@ -212,3 +221,4 @@ Print Assumptions C18_setplmn_api.
 Print Assumptions C18_setplmn_accepts.
 Print Assumptions C18_setplmn_validation.
 Print Assumptions C18_part_len_recomputed.
+Print Assumptions C18_anchor_files_keep_no_state.
